@@ -1,6 +1,7 @@
 package main
 
 import (
+	"go/ast"
 	"encoding/json"
 	"flag"
 	"fmt"
@@ -42,6 +43,41 @@ func main() {
 	switch os.Args[1] {
 	case "check":
 		os.Exit(cmdCheck(os.Args[2:]))
+	case "calls":
+		// govc calls <property> <function-key-substring>: print the static call ordinals of a function
+		cfg, err := loadPropConfig("/verif", os.Args[2])
+		if err != nil {
+			fmt.Println(err)
+			os.Exit(2)
+		}
+		dir := "/repo"
+		if cfg.Dir != "" {
+			dir = filepath.Join(dir, cfg.Dir)
+		}
+		w, err := LoadWorld(dir, cfg.Packages, "/repo", "/verif/contracts", nil)
+		if err != nil {
+			fmt.Println(err)
+			os.Exit(2)
+		}
+		for _, pi := range w.Pkgs {
+			for key, fd := range pi.Funcs {
+				if !strings.Contains(key, os.Args[3]) || fd.Body == nil {
+					continue
+				}
+				fmt.Println(key)
+				f := &Frame{in: NewInterp(w), pkg: pi.P, decl: fd, key: key}
+				n := 0
+				ast.Inspect(fd.Body, func(x ast.Node) bool {
+					if c, ok := x.(*ast.CallExpr); ok {
+						if fn := f.calleeOf(c); fn != nil && !isDroppedKey(funcKey(fn)) {
+							n++
+							fmt.Printf("  %3d  %s  (%s)\n", n, funcKey(fn), w.Fset.Position(c.Pos()))
+						}
+					}
+					return true
+				})
+			}
+		}
 	case "parse":
 		for _, p := range os.Args[2:] {
 			cf, err := ParseContractFile(p, "x")
